@@ -62,6 +62,12 @@ def gen_cases(ctx):
         inst = gen.gen_instance(rng, rng.choice(gen.NONFLEX_CLASSES), max_jobs=rng.choice([2, 3, 4]),
                                 max_machines=rng.choice([2, 3, 4]))
         yield {"kind": "sequences", "instance": inst, "seed": rng.randrange(2**31)}
+    names = ["ft06", "la01", "orb01", "abz5"] if ctx.tier == "quick" else [
+        "ft06", "ft10", "ft20", "la01", "la06", "la16", "la21", "la31", "orb01", "abz5", "abz7",
+        "swv01", "yn1", "ta01", "ta11", "ta31"]
+    for i, n in enumerate(names):
+        if i % ctx.nshards == ctx.shard:
+            yield {"kind": "benchmark_views", "name": n, "seed": 0, "instance": {"cls": "benchmark"}}
     for i in range(ctx.scale(210, 5000)):
         inst = gen.gen_instance(rng, None, max_jobs=3, max_machines=3)
         yield {"kind": "immutability", "instance": inst, "seed": rng.randrange(2**31),
@@ -419,5 +425,29 @@ def run_immutability(ctx, case):
     ctx.note_case(case, True, fingerprint=str(hash((gen.fingerprint(inst), who))))
 
 
+def run_benchmark_views(ctx, case):
+    """Recorded benchmark instances: views, dict/JSON and Taillard round trips."""
+    from job_shop_lib import JobShopInstance
+    from job_shop_lib.benchmarking import load_benchmark_instance
+    from ._dispatch_workload import inst_from_library
+    I = load_benchmark_instance(case["name"])
+    inst = inst_from_library(I)
+    check_views(ctx, inst, I, "benchmark " + case["name"])
+    d = json.loads(json.dumps(I.to_dict()))
+    J = JobShopInstance.from_matrices(**d)
+    same_instance(ctx, inst, J, I.name, I.metadata, "benchmark through JSON")
+    ctx.count("dict_round_trips")
+    with tempfile.TemporaryDirectory(prefix="jsv-c14b-") as td:
+        path = os.path.join(td, case["name"] + ".txt")
+        with open(path, "w", encoding="utf-8") as f:
+            f.write(taillard_text(inst, random.Random(1)))
+        T = JobShopInstance.from_taillard_file(path)
+        same_instance(ctx, inst, T, case["name"], {}, "benchmark taillard")
+        ctx.count("taillard_round_trips")
+    ctx.count("benchmark_instances")
+    ctx.note_case(case, True, fingerprint="bench:" + case["name"])
+
+
 def run_case(ctx, case):
-    {"views": run_views, "sequences": run_sequences, "immutability": run_immutability}[case["kind"]](ctx, case)
+    {"views": run_views, "sequences": run_sequences, "immutability": run_immutability,
+     "benchmark_views": run_benchmark_views}[case["kind"]](ctx, case)
